@@ -1,7 +1,7 @@
 SPECIFICATION Spec
 CONSTANTS
   MaxLoggers = 2
-  LoggerLevels = {0, 1, 2, 3, 4, 5}
+  LoggerLevels = {0, 1, 3, 5}
   Dump = TRUE
 INVARIANT Inv
 CHECK_DEADLOCK FALSE
